@@ -19,6 +19,7 @@ package json
 
 import (
 	"fmt"
+	"reflect"
 	"runtime"
 	"strings"
 	"sync"
@@ -59,7 +60,7 @@ var VerifPool VerifPoolCounters
 
 var (
 	verifOwned  sync.Map // pointer -> struct{}
-	verifSeen   sync.Map // pointer -> struct{} (distinct pooled states)
+	verifSeen   sync.Map // address -> struct{} (distinct pooled states)
 	verifErrMu  sync.Mutex
 	verifErrors []string
 )
@@ -93,7 +94,8 @@ func verifAcquire(p any) {
 	if _, loaded := verifOwned.LoadOrStore(p, struct{}{}); loaded {
 		verifError("pooled state acquired while still owned", p)
 	}
-	verifSeen.LoadOrStore(p, struct{}{})
+	// by address, so that the table does not keep dropped states alive
+	verifSeen.LoadOrStore(reflect.ValueOf(p).Pointer(), struct{}{})
 	n := VerifPool.InFlight.Add(1)
 	for {
 		m := VerifPool.MaxInFlight.Load()
